@@ -201,12 +201,13 @@ class CacheModel(ModelObj):
 
     def facts(self, ctx):
         i, n = z3.Ints("i!c n!c")
-        ctx.assume(forall([i, n], self.cnt(i, n) >= 0))
-        ctx.assume(forall([i], self.ln(i) >= 0))
-        ctx.assume(forall([i, n], IMP(self.cnt(i, n) > 0, self.ln(i) > 0)))
-        ctx.assume(forall([i], IMP(z3.Not(self.key(i)), self.ln(i) == 0)))
+        tg = "cache." + self.name
+        ctx.assume(forall([i, n], self.cnt(i, n) >= 0), tg)
+        ctx.assume(forall([i], self.ln(i) >= 0), tg)
+        ctx.assume(forall([i, n], IMP(self.cnt(i, n) > 0, self.ln(i) > 0)), tg)
+        ctx.assume(forall([i], IMP(z3.Not(self.key(i)), self.ln(i) == 0)), tg)
         w = ctx.fresh_fun(self.name + "_wit", Int, Int)
-        ctx.assume(forall([i], IMP(self.ln(i) > 0, self.cnt(i, w(i)) > 0)))
+        ctx.assume(forall([i], IMP(self.ln(i) > 0, self.cnt(i, w(i)) > 0)), tg)
 
     def havoc(self, ctx):
         self.key = ctx.fresh_fun(self.name + "_key", Int, Bool)
